@@ -1103,6 +1103,8 @@ def kernel_tolerances(chk, prog, funcs_by_unit, table=None, what='dense kernels'
                     chk.instance(R, desc + ': confirmed site (%s)' % table[key])
                 elif t is not None and t <= 1e-12:
                     chk.instance(R, desc + ': tolerance below the square of the smallest magnitude in range')
+                elif t is None:
+                    chk.instance(R, desc + ': tolerance is not a literal (possibly relative): not decided', 'undecided')
                 else:
                     chk.instance(R, desc + ': not a confirmed site', 'refuted')
                     chk.violation(Finding(rule, rel(f.file), nm, 'tol:%s:%s' % (cell_key(m[0]), t), f.unit.where(n),
